@@ -5,6 +5,7 @@
 #    so that neither /repo nor /verif's own build is disturbed.  One summary line per step.
 # The copy (/tmp/vc_<worktree name>) keeps its harness build between seeds; remove it with the worktree.
 sd=$1; wt=$2; shift; shift
+[ -e $sd/seed_demo.rs ] || SKIP_CONFIRM=1
 tag=$(basename $sd)
 res=/tmp/seed/results; mkdir -p $res
 feat=$(python3 -c "import json,re,sys; m=json.load(open('$sd/meta.json')); c=m.get('demo_cmd',''); r=re.search(r'--features[ =](\S+)', c); print(r.group(1) if r else '')")
